@@ -315,6 +315,7 @@ pub struct Counters {
     pub clock_jumps: u64,
     pub wall_steps_back: u64,
     pub wall_steps_fwd: u64,
+    pub spin_advances: u64,
     pub stall_skips: u64,
     pub blocks: u64,
     pub select_choices: u64,
@@ -444,6 +445,7 @@ pub fn run<F: FnOnce() + Send + 'static>(cfg: SimCfg, mut choices: Choices, reco
     SIM_CLOCK_ON.store(true, Ordering::SeqCst);
     NOW.store(epoch, Ordering::SeqCst);
     WALL_SKEW_NS.store(0, Ordering::SeqCst);
+    PROGRESS_STEP.store(0, Ordering::SeqCst);
     let sim = Arc::new(Sim {
         st: Mutex::new(st),
         host: Parker::new(),
@@ -912,6 +914,20 @@ fn pick_next(sim: &Arc<Sim>, st: &mut MutexGuard<'_, State>, me: TaskId, _site: 
                 continue;
             }
         }
+        // the same with several pollers (futures that wake themselves, retry loops): they keep one
+        // another runnable, so "nothing is runnable" never becomes true and a task sleeping in
+        // virtual time - say the processor, descheduled while it holds the lock they all wait
+        // for - would sleep for ever.  Spinning burns time: after a long stretch of steps in which
+        // the application recorded no event the clock moves to the earliest sleeper's deadline.
+        if !cands.is_empty() && step.saturating_sub(PROGRESS_STEP.load(Ordering::SeqCst)) > 20_000 {
+            let wake = st.tasks.iter().filter_map(|t| if let TState::Sleeping(u) = t.state { Some(u) } else { None }).filter(|u| *u > st.now).min();
+            if let Some(d) = wake {
+                PROGRESS_STEP.store(step, Ordering::SeqCst);
+                st.ctr.spin_advances += 1;
+                set_now(st, d);
+                continue;
+            }
+        }
         if !cands.is_empty() {
             let unstalled: Vec<TaskId> = cands
                 .iter()
@@ -1172,6 +1188,14 @@ pub fn jump_clock_ns(ns: u64) {
     st.ctr.clock_jumps += 1;
     let t = st.now + ns;
     set_now(&mut st, t);
+}
+
+/// Scheduler step at which the application (the harness's event log) last recorded an event.
+pub static PROGRESS_STEP: AtomicU64 = AtomicU64::new(0);
+
+/// Called by the harness whenever it logs an event.
+pub fn note_progress() {
+    PROGRESS_STEP.store(STEPS.load(Ordering::SeqCst), Ordering::SeqCst);
 }
 
 /// Wall-clock skew (ns, either sign): what `time::SystemTime::now()` reads is the virtual clock plus
